@@ -183,6 +183,9 @@ class Contract:
     def pre(self, c):        # -> [(label, Bool)]
         return []
 
+    def scope(self, c):      # -> [(label, Bool)]  extra hypotheses for verifying the body only:
+        return []            #    post() must then be conditional on them (callers get no more than was proved)
+
     def post(self, c):       # -> [(label, Bool)]     c.result, c.old, c.new
         return []
 
@@ -194,7 +197,8 @@ class Contract:
 
 
 class Frame:
-    def __init__(self, raw=(), fields=(), err=False, ghost=(), all_fields=False, all_raw=False):
+    def __init__(self, raw=(), fields=(), err=False, ghost=(), all_fields=False, all_raw=False, havoc_if=None):
+        self.havoc_if = havoc_if      # Bool: when true the callee may change everything (outside the proved scope)
         self.raw = list(raw)          # [(addr, nbytes-term)]
         self.fields = list(fields)    # [heap keys] or [(rec, field)]
         self.err = err
@@ -232,9 +236,13 @@ class Ctx:
         return self.ex.local_value(st, name)
 
     def valid(self, addr, n):
+        """[addr, addr+n) is mapped memory (no wrap-around).  Regions named by a function's
+        own precondition are, in addition, disjoint from that function's stack locals."""
         n = n if z3.is_bv(n) else BV(n, 64)
-        return z3.And(z3.UGE(addr, BV(USER_LO, 64)), z3.ULE(addr, BV(USER_HI, 64)),
-                      z3.ULE(n, BV(USER_HI, 64)), z3.ULE(addr + n, BV(USER_HI, 64)))
+        if getattr(self.ex, 'collecting_regions', False):
+            self.ex.declared_regions.append((addr, n))
+        return z3.And(z3.UGE(addr, BV(USER_LO, 64)), z3.ULE(addr, BV(STACK_HI, 64)),
+                      z3.ULE(n, BV(STACK_HI, 64)), z3.ULE(addr + n, BV(STACK_HI, 64)))
 
 
 # ---------------------------------------------------------------------------
@@ -268,6 +276,8 @@ class Exec:
         self.nloops = 0
         self.prune = True
         self.pruned = 0
+        self.declared_regions = []
+        self.collecting_regions = False
 
     # -- naming ------------------------------------------------------------
     def fresh(self, base, sort):
@@ -315,7 +325,10 @@ class Exec:
         off_acc = 0
         parts = fname.split('.')
         for i, p in enumerate(parts):
-            size, align, fields = self.tu.layout(reckey)
+            ltu = self.tu
+            if reckey not in ltu.records and getattr(self.reg, 'layout_tu', None) is not None:
+                ltu = self.reg.layout_tu        # record opaque in this TU (Py_LIMITED_API): backend's definition
+            size, align, fields = ltu.layout(reckey)
             if p not in fields:
                 raise NotSupported("no field %s in %s" % (p, reckey))
             off, ft, _ = fields[p]
@@ -432,13 +445,17 @@ class Exec:
 
     def finish_hyps(self):
         hy = []
-        lo = BV(USER_HI, 64)
-        prev_end = lo
-        # lay the stack locals out in a fixed order above USER_HI (pairwise disjoint, no wrap)
+        prev_end = BV(USER_LO, 64)
+        # this frame's stack locals: pairwise disjoint (fixed order), no wrap, and disjoint
+        # from every region the precondition names (a fresh frame overlaps nothing handed in)
         for a, size in self.stack_syms:
             hy.append(z3.UGE(a, prev_end))
             hy.append(z3.ULE(a, BV(STACK_HI, 64)))
-            prev_end = a + BV((size + 15) // 16 * 16, 64)
+            end = a + BV((size + 15) // 16 * 16, 64)
+            hy.append(z3.ULE(end, BV(STACK_HI, 64)))
+            for (r, n) in self.declared_regions:
+                hy.append(z3.Or(z3.UGE(a, r + n), z3.ULE(end, r)))
+            prev_end = end
         if len(self._glob_syms) > 1:
             hy.append(z3.Distinct(*self._glob_syms))
         for g in self._glob_syms:
@@ -475,8 +492,12 @@ class Exec:
         self.st0 = st.copy()
         c0 = Ctx(self, args, self.st0)
         self.c0 = c0
+        self.collecting_regions = True
         for label, p in self.contract.pre(c0):
             st.assume(p)
+        for label, p in self.contract.scope(c0):
+            st.assume(p)
+        self.collecting_regions = False
         self.pre_pc = list(st.pc)
         # the initial heaps may have been extended by pre(); share them
         for k, h in self.st0.fh.items():
@@ -502,10 +523,14 @@ class Exec:
         fr = self.contract.frame(c)
         if fr is None:
             return
+        if fr.havoc_if is not None:
+            rst = rst.copy()
+            rst.assume(z3.Not(fr.havoc_if))
         if not fr.all_raw and not _same(rst.raw, self.raw0):
             a = z3.BitVec('frame_a', 64)
             conds = [z3.Not(in_range(a, lo, n if z3.is_bv(n) else BV(n, 64))) for lo, n in fr.raw]
-            conds.append(z3.ULT(a, BV(USER_HI, 64)))     # stack locals of this frame are dead
+            for sa, ssize in self.stack_syms:            # stack locals of this frame are dead on return
+                conds.append(z3.Not(in_range(a, sa, BV((ssize + 15) // 16 * 16, 64))))
             self.ob('frame', rline, 'raw-bytes-outside-assigns-unchanged', rst,
                     z3.Implies(z3.And(*conds), z3.Select(rst.raw, a) == z3.Select(self.raw0, a)),
                     witness={'frame_a': a})
@@ -523,8 +548,10 @@ class Exec:
                 if key in allowed or h0 is None or _same(h, h0):
                     continue
                 a = z3.BitVec('frame_p', 64)
+                notstack = [z3.Not(in_range(a, sa, BV((ssize + 15) // 16 * 16, 64))) for sa, ssize in self.stack_syms]
                 self.ob('frame', rline, 'field-heap-unchanged:' + key, rst,
-                        z3.Implies(z3.ULT(a, BV(USER_HI, 64)), z3.Select(h, a) == z3.Select(h0, a)),
+                        z3.Implies(z3.And(*notstack) if notstack else z3.BoolVal(True),
+                                   z3.Select(h, a) == z3.Select(h0, a)),
                         witness={'frame_p': a})
         if not fr.err and not _same(rst.err, self.err0):
             self.ob('frame', rline, 'error-indicator-unchanged', rst, rst.err == self.err0)
@@ -541,7 +568,7 @@ class Exec:
     def has_label(self, node):
         r = node.get('_haslabel')
         if r is None:
-            r = node.get('kind') in ('LabelStmt', 'CaseStmt', 'DefaultStmt') or \
+            r = node.get('kind') == 'LabelStmt' or \
                 any(self.has_label(c) for c in node.get('inner', []) or [] if isinstance(c, dict))
             node['_haslabel'] = r
         return r
@@ -859,6 +886,8 @@ class Exec:
 
     def exec_switch(self, n, st):
         cond, body = n['inner'][0], n['inner'][-1]
+        if st is None:
+            raise NotSupported("goto into a switch body")
         v = self.ev(cond, st)
         if body['kind'] != 'CompoundStmt':
             raise NotSupported("switch body")
@@ -998,6 +1027,9 @@ class Exec:
     def ev_FloatingLiteral(self, n, st):
         t = self.tu.ctype_of(n)
         return z3.FPVal(float(n['value']), sort_of(t))
+
+    def ev_PredefinedExpr(self, n, st):
+        return self.global_addr('str:__func__')
 
     def ev_StringLiteral(self, n, st):
         # address of an anonymous constant; contents modelled only on request
@@ -1328,6 +1360,7 @@ class Exec:
         if rt.kind != 'void':
             res = self.fresh('ret_' + name, sort_of(rt))
         fr = con.frame(c) if not con.pure else Frame()
+        pre_call = st.copy() if fr.havoc_if is not None else None
         if fr.raw or fr.all_raw:
             newraw = self.fresh('raw_after_' + name, z3.ArraySort(B64, B8))
             if not fr.all_raw:
@@ -1354,6 +1387,14 @@ class Exec:
             gk2 = gk if gk in st.ghost else 'g:' + gk
             if gk2 in st.ghost:
                 st.ghost[gk2] = self.fresh('g_after_' + name, st.ghost[gk2].sort())
+        if fr.havoc_if is not None:
+            hv = fr.havoc_if
+            st.raw = z3.If(hv, self.fresh('raw_havoc_' + name, z3.ArraySort(B64, B8)), st.raw)
+            for key in list(st.fh):
+                st.fh[key] = z3.If(hv, self.fresh('H_havoc_' + name, st.fh[key].sort()), st.fh[key])
+            st.err = z3.If(hv, self.fresh('err_havoc_' + name, B64), st.err)
+            for gk in list(st.ghost):
+                st.ghost[gk] = z3.If(hv, self.fresh('g_havoc_' + name, st.ghost[gk].sort()), st.ghost[gk])
         c2 = Ctx(self, argmap, old, st, res)
         for label, q in con.post(c2):
             st.assume(q)
